@@ -37,7 +37,9 @@ STMT = [("01/05/2025", "NETFLIX.COM 1", "15.50"), ("01/06/2025", "UBER EATS 22",
         # two identical uncategorised charges on one day (each counts), and one whose description holds a run of blanks
         ("02/08/2025", "TWIN CHARGE", "7.25"), ("02/08/2025", "TWIN CHARGE", "7.25"), ("02/09/2025", "ACME  CORP   55", "12.00"),
         # a rule-named merchant (ODDCASE) and an uncategorised one whose derived name differs from it only in letter case (Oddcase)
-        ("02/10/2025", "ODDCASE CORP 1", "33.00"), ("02/11/2025", "oddcase 4411", "8.00")]
+        ("02/10/2025", "ODDCASE CORP 1", "33.00"), ("02/11/2025", "oddcase 4411", "8.00"),
+        # one merchant name reached through two rules with different categories; the rows are NOT in date order (newest first, as many exports are)
+        ("03/02/2025", "COSTCO WHSE 77", "80.00"), ("03/01/2025", "COSTCO GAS 12", "40.00")]
 PROBES = [("ZZ NETFLIX PROBE", 50.0), ("ZZ UBER EATS PROBE", 50.0), ("ZZ UBER PROBE", 150.0), ("ZZ COFFEE PROBE", 50.0), ("ZZ NOTHING PROBE", 150.0),
           ("SQ *ZZ NETFLIX PROBE", 50.0), ("ZZ BOOKISH PROBE", 99.75), ("SQ *ZZ NOWHERE PROBE", 50.0), ("ZZ OUTLET PROBE", 40.0), ("ZZ OUTLET PROBE", -40.0),
           # runs of blanks are part of the description (a rule can depend on them)
@@ -62,12 +64,18 @@ def rules_text(feats, transform, supplemental):
         rules.append('[Coffee Numbered]\nlet: kind = extract("COFFEE (\\\\w+)")\nmatch: kind != ""\ncategory: Food\nsubcategory: Coffee\nfield: kind = kind\ntags: {kind}\n')
     if "not-contains" in feats:
         rules.append('[Uber Ride]\nmatch: not contains("EATS") and contains("UBER")\ncategory: Transport\nsubcategory: Rideshare\n')
-    if supplemental:
+    if supplemental and "variable" in feats:
+        # the supplemental source is named ONLY in a top-level variable
+        pre.append('has_order = any(r.amount == amount for r in orders)')
+        rules.append('[Ordered]\nmatch: has_order\ncategory: Shopping\nsubcategory: Orders\ntags: verified\n')
+    elif supplemental:
         if transform:
             # the supplemental source is named only in a let: binding
             rules.append('[Ordered]\nlet: hits = [r for r in orders if r.amount == amount]\nmatch: len(hits) > 0\ncategory: Shopping\nsubcategory: Orders\ntags: verified\n')
         else:
             rules.append('[Ordered]\nmatch: any(r.amount == amount for r in orders)\ncategory: Shopping\nsubcategory: Orders\ntags: verified\n')
+    rules.append('[Costco Gas]\nmatch: contains("COSTCO GAS")\ncategory: Transport\nsubcategory: Fuel\nmerchant: Costco\n')
+    rules.append('[Costco]\nmatch: contains("COSTCO")\ncategory: Food\nsubcategory: Groceries\n')
     rules.append('[Apple Pay]\nmatch: startswith("APLPAY")\ncategory: Wallet\nsubcategory: ApplePay\n')
     rules.append('[ODDCASE]\nmatch: contains("ODDCASE CORP")\ncategory: Income\nsubcategory: Odd\ntags: odd\n')
     rules.append('[Acme Two Blanks]\nmatch: contains("ACME  CORP") or startswith("ZED   MART")\ncategory: Office\nsubcategory: Supplies\n')
